@@ -16,7 +16,8 @@
 (*               parameters substituted, order preserved) - declarative;    *)
 (*   Code(F)     a transcription of the loader as written (checks in the    *)
 (*               loader's order and with the loader's conditions).          *)
-(* Property (L1): Fidelity / ValidLoads / Rejection below, stated on any    *)
+(* Property (L1): Fidelity / ValidLoads / Rejection / TargetAsWritten below, *)
+(* stated on any                                                            *)
 (* outcome `o`; leg M checks them on Code(f) for every reachable f, the     *)
 (* trace module checks them on the outcome of the REAL loader.              *)
 (*                                                                         *)
@@ -36,8 +37,13 @@
 (*   Chal = [name: Str, dflt: "abs"|"true"|"false", sched: Seq(El)]         *)
 (*   F    = [form: "schedule"|"challenge"|"challenges", chals: Seq(Chal),   *)
 (*           ops: Seq([name, type: Str, bulk: Val]),                        *)
-(*           corpora: Seq([name: Str, docs: Seq([base, ext: Str,            *)
-(*                         count: Val, tidx: Str])]),                       *)
+(*           corpora: Seq([name, tidx, tds, iaamd: Str,                     *)
+(*                    docs: Seq([base, ext: Str, count: Val,                *)
+(*                               tidx, tds, iaamd: Str])]),                 *)
+(*             tidx / tds = "target-index" / "target-data-stream" written   *)
+(*             on the document set resp. as corpus-level default ("" = not  *)
+(*             written); iaamd = "includes-action-and-meta-data":           *)
+(*             "abs" | "true" | "false",                                    *)
 (*           indices, streams: Seq(Str),                                    *)
 (*           supN: {[p: Str, v: Int]}, supS: {[p: Str, v: Str]}  supplied   *)
 (*           track parameters (--track-params),                             *)
@@ -120,10 +126,12 @@ Resolve(F) == [form |-> F.form,
                chals |-> [c \in 1..Len(F.chals) |-> RChal(F, F.chals[c])],
                ops |-> [i \in 1..Len(F.ops) |-> [name |-> F.ops[i].name, type |-> F.ops[i].type, bulk |-> ResN(F, F.ops[i].bulk)]],
                corpora |-> [k \in 1..Len(F.corpora) |->
-                              [name |-> F.corpora[k].name,
+                              [name |-> F.corpora[k].name, tidx |-> F.corpora[k].tidx, tds |-> F.corpora[k].tds,
+                               iaamd |-> F.corpora[k].iaamd,
                                docs |-> [d \in 1..Len(F.corpora[k].docs) |->
                                            [base |-> F.corpora[k].docs[d].base, ext |-> F.corpora[k].docs[d].ext,
-                                            count |-> ResN(F, F.corpora[k].docs[d].count), tidx |-> F.corpora[k].docs[d].tidx]]]],
+                                            count |-> ResN(F, F.corpora[k].docs[d].count), tidx |-> F.corpora[k].docs[d].tidx,
+                                            tds |-> F.corpora[k].docs[d].tds, iaamd |-> F.corpora[k].docs[d].iaamd]]]],
                indices |-> F.indices, streams |-> F.streams, defect |-> F.defect]
 
 (* Track parameters referenced anywhere in the file, included parts too.   *)
@@ -158,6 +166,14 @@ Eff(own, inherited) == IF own # Abs THEN own ELSE inherited
 IsSet(x) == x # Abs
 AllPos(ch) == UNION {{<<e, i>> : i \in 1..Len(ch.sched[e].tasks)} : e \in 1..Len(ch.sched)}
 ChalName(R, c) == IF R.form = "schedule" THEN "default" ELSE R.chals[c].name
+
+(* Target of a document set x of corpus k (docs/track.rst, "corpora"): its own target-index / target-data-stream, else  *)
+(* the corpus-level default, else the name of the ONLY index / data stream of the track; none at all when the file says *)
+(* that the documents carry their own action-and-meta-data lines.                                                       *)
+EffIaamd(k, x) == IF x.iaamd # "abs" THEN x.iaamd = "true" ELSE k.iaamd = "true"
+DetIdx(R, k, x) == IF x.tidx # "" THEN x.tidx ELSE IF k.tidx # "" THEN k.tidx ELSE IF Len(R.indices) = 1 THEN R.indices[1] ELSE ""
+DetDs(R, k, x) == IF x.tds # "" THEN x.tds ELSE IF k.tds # "" THEN k.tds ELSE IF Len(R.streams) = 1 THEN R.streams[1] ELSE ""
+SomeDoc(R, Q(_, _)) == \E k \in 1..Len(R.corpora) : \E d \in 1..Len(R.corpora[k].docs) : Q(R.corpora[k], R.corpora[k].docs[d])
 
 RECURSIVE SumClients(_, _)
 SumClients(ts, n) == IF n = 0 THEN 0 ELSE SumClients(ts, n - 1) + (IF ts[n].clients = Abs THEN 1 ELSE ts[n].clients)
@@ -205,6 +221,10 @@ Rule(r, F, R) ==
       [] r = "reservedParam" -> Supplied(F) \cap Reserved # {}
       [] r = "schemaType" -> R.defect.k \in TypeDefects \/ OutOfRange(R) \/ NotUnique(R)
       [] r = "schemaMissing" -> R.defect.k \in MissingDefects
+      \* a document set (without action-and-meta-data lines) whose target the file does not determine: no target on the set,
+      \* none on the corpus, and not exactly one index / data stream ("Rally will automatically derive this value if you
+      \* have defined exactly one index")
+      [] r = "targetUndetermined" -> SomeDoc(R, LAMBDA k, x : ~EffIaamd(k, x) /\ DetIdx(R, k, x) = "" /\ DetDs(R, k, x) = "")
       \* ---- enforced by the loader, documented, but not named by the property statement (L2 only) ----
       [] r = "rampUpOnTaskOnly" -> SomeTask(R, LAMBDA el, t : el.par /\ ~IsSet(el.ru) /\ IsSet(t.ru))
       [] r = "rampUpDiffers" -> SomeTask(R, LAMBDA el, t : el.par /\ IsSet(el.ru) /\ IsSet(t.ru) /\ t.ru # el.ru)
@@ -213,15 +233,18 @@ Rule(r, F, R) ==
       [] r = "taskNamedAny" -> \E c \in 1..Len(R.chals) : \E e \in 1..Len(R.chals[c].sched) :
                               LET el == R.chals[c].sched[e] IN
                               el.par /\ el.cb = "any" /\ \E i \in 1..Len(el.tasks) : TName(R, el.tasks[i]) = "any"
-      [] r = "corpusTarget" -> \E k \in 1..Len(R.corpora) : \E d \in 1..Len(R.corpora[k].docs) :
-                              LET x == R.corpora[k].docs[d] IN
-                              \/ Len(R.streams) >= 2
-                              \/ x.tidx = "" /\ Len(R.indices) # 1 /\ Len(R.streams) # 1
-                              \/ x.tidx # "" /\ Len(R.streams) > 0
+      \* where the loader's treatment of targets is its own business (L1 says nothing about these files): an index target in
+      \* a track that declares data streams or vice versa (rejected), a corpus-level target without the corresponding section
+      \* (ignored unless the document set repeats it)
+      [] r = "corpusTarget" -> SomeDoc(R, LAMBDA k, x : /\ ~EffIaamd(k, x)
+                                                        /\ \/ DetIdx(R, k, x) # "" /\ Len(R.streams) > 0
+                                                           \/ DetDs(R, k, x) # "" /\ Len(R.indices) > 0
+                                                           \/ x.tidx = "" /\ k.tidx # "" /\ Len(R.indices) = 0
+                                                           \/ x.tds = "" /\ k.tds # "" /\ Len(R.streams) = 0)
 
 L1Rules == {"dupTask", "dupChallenge", "dupCorpus", "dupOperation", "noDefault", "twoDefaults", "mixing",
             "rampUpWithoutWarmup", "rampUpGtWarmup", "unknownCompletedBy", "indicesAndDataStreams", "unusedParam",
-            "reservedParam", "schemaType", "schemaMissing"}
+            "reservedParam", "schemaType", "schemaMissing", "targetUndetermined"}
 L2Rules == {"rampUpOnTaskOnly", "rampUpDiffers", "corpusTarget", "taskNamedAny"}
 Rules == L1Rules \cup L2Rules
 ViolR(F, R) == {r \in Rules : Rule(r, F, R)}
@@ -245,14 +268,24 @@ ExpEl(R, el) == [par |-> el.par,
 ExpChal(R, c) == [name |-> ChalName(R, c),
                   dflt |-> Len(R.chals) = 1 \/ R.chals[c].dflt = "true",
                   sched |-> [e \in 1..Len(R.chals[c].sched) |-> ExpEl(R, R.chals[c].sched[e])]]
-ExpDoc(R, x) == [file |-> x.base, arch |-> x.ext, count |-> x.count,
-                 tidx |-> IF x.tidx # "" THEN x.tidx ELSE IF Len(R.indices) = 1 THEN R.indices[1] ELSE "",
-                 tds |-> IF Len(R.streams) = 1 THEN R.streams[1] ELSE ""]
-ExpectedR(R) == [chals |-> [c \in 1..Len(R.chals) |-> ExpChal(R, c)],
-                 corpora |-> [k \in 1..Len(R.corpora) |->
-                                [name |-> R.corpora[k].name,
-                                 docs |-> [d \in 1..Len(R.corpora[k].docs) |-> ExpDoc(R, R.corpora[k].docs[d])]]],
-                 indices |-> R.indices, streams |-> R.streams]
+\* targets as the loader computes them (_create_corpora), used by the transcription only
+CodeCorpusIdx(R, k) == IF Len(R.indices) = 1 THEN (IF k.tidx # "" THEN k.tidx ELSE R.indices[1])
+                       ELSE IF Len(R.indices) > 1 THEN k.tidx ELSE ""
+CodeCorpusDs(R, k) == IF Len(R.streams) = 1 THEN (IF k.tds # "" THEN k.tds ELSE R.streams[1])
+                      ELSE IF Len(R.streams) > 1 THEN k.tds ELSE ""
+CodeIdx(R, k, x) == IF x.tidx # "" THEN x.tidx ELSE CodeCorpusIdx(R, k)
+CodeDs(R, k, x) == IF x.tds # "" THEN x.tds ELSE CodeCorpusDs(R, k)
+ExpDoc(R, k, x, asCode) ==
+    [file |-> x.base, arch |-> x.ext, count |-> x.count, iaamd |-> EffIaamd(k, x),
+     tidx |-> IF EffIaamd(k, x) THEN "" ELSE IF asCode THEN CodeIdx(R, k, x) ELSE DetIdx(R, k, x),
+     tds |-> IF EffIaamd(k, x) THEN "" ELSE IF asCode THEN CodeDs(R, k, x) ELSE DetDs(R, k, x)]
+CoreR(R, asCode) == [chals |-> [c \in 1..Len(R.chals) |-> ExpChal(R, c)],
+                     corpora |-> [k \in 1..Len(R.corpora) |->
+                                    [name |-> R.corpora[k].name,
+                                     docs |-> [d \in 1..Len(R.corpora[k].docs) |->
+                                                 ExpDoc(R, R.corpora[k], R.corpora[k].docs[d], asCode)]]],
+                     indices |-> R.indices, streams |-> R.streams]
+ExpectedR(R) == CoreR(R, FALSE)
 Expected(F) == ExpectedR(Resolve(F))
 
 InclDefault(type) == type \notin AdminTypes   \* include-in-reporting unless an administrative built-in type
@@ -301,17 +334,15 @@ CodeChallengesError(R, c, seenDefault, seenNames) ==
 \* _create_corpora
 CodeCorporaError(R) ==
     \/ \E k, j \in 1..Len(R.corpora) : k < j /\ R.corpora[k].name = R.corpora[j].name
-    \/ \E k \in 1..Len(R.corpora) : \E d \in 1..Len(R.corpora[k].docs) :
-          LET x == R.corpora[k].docs[d]
-              corpusIdx == IF Len(R.indices) = 1 THEN R.indices[1] ELSE ""
-              corpusDs == IF Len(R.streams) = 1 THEN R.streams[1] ELSE ""
-              tds == corpusDs
-              tix == IF x.tidx # "" THEN x.tidx ELSE corpusIdx
-          IN \/ Len(R.streams) > 0 /\ corpusDs = ""          \* mandatory target-data-stream missing
-             \/ tds # "" /\ Len(R.indices) > 0
-             \/ x.tidx = "" /\ Len(R.indices) > 0 /\ corpusIdx = ""   \* mandatory target-index missing
-             \/ tix # "" /\ Len(R.streams) > 0
-             \/ tix = "" /\ tds = ""
+    \/ SomeDoc(R, LAMBDA k, x :
+          LET tds == CodeDs(R, k, x)
+              tix == CodeIdx(R, k, x)
+          IN /\ ~EffIaamd(k, x)
+             /\ \/ x.tds = "" /\ Len(R.streams) > 0 /\ CodeCorpusDs(R, k) = ""     \* mandatory target-data-stream missing
+                \/ tds # "" /\ Len(R.indices) > 0
+                \/ x.tidx = "" /\ Len(R.indices) > 0 /\ CodeCorpusIdx(R, k) = ""   \* mandatory target-index missing
+                \/ tix # "" /\ Len(R.streams) > 0
+                \/ tix = "" /\ tds = "")
 CodeSchemaError(R) == R.defect.k # "none" \/ OutOfRange(R) \/ NotUnique(R)
 CodeR(F, R, sel) ==
     IF CodeSchemaError(R) THEN Rejected("syntax")                                  \* jsonschema / mandatory elements
@@ -321,32 +352,49 @@ CodeR(F, R, sel) ==
     ELSE IF CodeChallengesError(R, 1, FALSE, {}) THEN Rejected("syntax")
     ELSE IF Supplied(F) \cap Reserved # {} THEN Rejected("config")
     ELSE IF Supplied(F) \ (IF F.tight /\ ~MacroIncludesSeen THEN UsedOutsideParts(F) ELSE Used(F)) # {} THEN Rejected("config")
-    ELSE [ok |-> TRUE, kind |-> "", core |-> ExpectedR(R), extra |-> ExtraR(R, sel)]
+    ELSE [ok |-> TRUE, kind |-> "", core |-> CoreR(R, TRUE), extra |-> ExtraR(R, sel)]
 Code(F, sel) == CodeR(F, Resolve(F), sel)
 
 -----------------------------------------------------------------------------
 (* THE PROPERTY on an outcome o of loading F.                               *)
-(* V = Viol(F), E = Expected(F) are passed in so that they are evaluated once. *)
-Fidelity(V, E, o) == (V = {} /\ o.ok) => o.core = E
+(* V = Viol(F), R = Resolve(F) are passed in so that they are evaluated once. *)
+Fidelity(V, R, o) == (V = {} /\ o.ok) => o.core = ExpectedR(R)
 ValidLoads(V, o) == V = {} => o.ok
 Rejection(V, o) == V \cap L1Rules # {} => ~o.ok /\ o.kind \in {"syntax", "config"}
-Clauses == {"Fidelity", "ValidLoads", "Rejection"}
-Holds(cl, V, E, o) == CASE cl = "Fidelity" -> Fidelity(V, E, o)
+\* Whatever else the file contains: a track that LOADED has exactly the corpora / document sets written, and every
+\* document set targets what the file determines (its own target, else the corpus-level one, else the only index / data
+\* stream; nothing if the documents carry action-and-meta-data lines). A file that determines no target cannot load.
+\* Files in the loader-specific zone "corpusTarget" are left to L2.
+TargetAsWritten(V, R, o) ==
+    (o.ok /\ "corpusTarget" \notin V) =>
+        /\ Len(o.core.corpora) = Len(R.corpora)
+        /\ \A k \in 1..Len(R.corpora) :
+              /\ Len(o.core.corpora[k].docs) = Len(R.corpora[k].docs)
+              /\ \A d \in 1..Len(R.corpora[k].docs) :
+                    LET x == R.corpora[k].docs[d]
+                        y == o.core.corpora[k].docs[d]
+                    IN IF EffIaamd(R.corpora[k], x) THEN y.tidx = "" /\ y.tds = ""
+                       ELSE /\ y.tidx = DetIdx(R, R.corpora[k], x)
+                            /\ y.tds = DetDs(R, R.corpora[k], x)
+                            /\ (y.tidx # "" \/ y.tds # "")
+Clauses == {"Fidelity", "ValidLoads", "Rejection", "TargetAsWritten"}
+Holds(cl, V, R, o) == CASE cl = "Fidelity" -> Fidelity(V, R, o)
                         [] cl = "ValidLoads" -> ValidLoads(V, o)
                         [] cl = "Rejection" -> Rejection(V, o)
+                        [] cl = "TargetAsWritten" -> TargetAsWritten(V, R, o)
 
 \* leg M: the transcription of the loader satisfies the property on every reachable file; moreover it rejects
 \* whatever violates a loader-only rule (model-level L2 sanity) and the bookkeeping variable agrees with the rules
 PropertyHolds == LET R == Resolve(f)
                      V == ViolR(f, R)
                      o == CodeR(f, R, "")
-                 IN \A cl \in Clauses : Holds(cl, V, ExpectedR(R), o)
+                 IN \A cl \in Clauses : Holds(cl, V, R, o)
 ModelSane == LET R == Resolve(f)
                  V == ViolR(f, R)
              IN /\ (violated = "none") <=> (V = {})
                 /\ violated \in L1Rules => V \cap L1Rules = {violated}
                 /\ violated = "l2only" => V # {} /\ V \cap L1Rules = {}
-                /\ (V \ {"taskNamedAny"} # {} /\ RejectAllMixing) => ~CodeR(f, R, "").ok
+                /\ (V \ {"taskNamedAny", "corpusTarget"} # {} /\ RejectAllMixing) => ~CodeR(f, R, "").ok
 
 -----------------------------------------------------------------------------
 (* BUILDER                                                                 *)
@@ -380,7 +428,12 @@ SumTasks(s, n) == IF n = 0 THEN 0 ELSE SumTasks(s, n - 1) + Len(s[n].tasks)
 RECURSIVE SumChTasks(_, _)
 SumChTasks(cs, n) == IF n = 0 THEN 0 ELSE SumChTasks(cs, n - 1) + SumTasks(cs[n].sched, Len(cs[n].sched))
 RECURSIVE SumDocs(_, _)
-SumDocs(ks, n) == IF n = 0 THEN 0 ELSE SumDocs(ks, n - 1) + Len(ks[n].docs)
+DocSet(x) == (IF x.tds # "" THEN 1 ELSE 0) + (IF x.iaamd # "abs" THEN 1 ELSE 0)
+RECURSIVE SumDocSet(_, _)
+SumDocSet(ds, n) == IF n = 0 THEN 0 ELSE SumDocSet(ds, n - 1) + DocSet(ds[n])
+SumDocs(ks, n) == IF n = 0 THEN 0
+                  ELSE SumDocs(ks, n - 1) + Len(ks[n].docs) + SumDocSet(ks[n].docs, Len(ks[n].docs))
+                       + (IF ks[n].tidx # "" THEN 1 ELSE 0) + DocSet(ks[n])
 \* number of builder steps that lead to F = number of things written beyond the minimal file
 Size(F) == SetCount(F) + (SumChTasks(F.chals, Len(F.chals)) - 1) + Len(F.ops) + SumDocs(F.corpora, Len(F.corpora))
            + Len(F.indices) + Len(F.streams) + Cardinality(F.supN) + Cardinality(F.supS) + Cardinality(F.parts)
@@ -428,11 +481,22 @@ CandSetParallelField ==
                    ELSE {})
       : e \in ElIdx(c)} : c \in ChalIdx}
 CandAddCorpus == IF Len(f.corpora) < MaxCorpora
-                 THEN {[f EXCEPT !.corpora = Append(@, [name |-> n, docs |-> <<d>>])] : n \in KNames, d \in DocFiles}
+                 THEN {[f EXCEPT !.corpora = Append(@, [name |-> n, tidx |-> "", tds |-> "", iaamd |-> "abs", docs |-> <<d>>])] :
+                          n \in KNames, d \in DocFiles}
                  ELSE {}
 CandAddDocs == UNION {IF Len(f.corpora[k].docs) < MaxDocs
                       THEN {[f EXCEPT !.corpora[k].docs = Append(@, d)] : d \in DocFiles}
                       ELSE {} : k \in 1..Len(f.corpora)}
+\* target / action-and-meta-data attributes on the corpus (defaults) and on a document set
+CandSetCorpusField ==
+    UNION {(IF f.corpora[k].tidx = "" THEN {[f EXCEPT !.corpora[k].tidx = n] : n \in INames} ELSE {})
+           \cup (IF f.corpora[k].tds = "" THEN {[f EXCEPT !.corpora[k].tds = n] : n \in SNames} ELSE {})
+           \cup (IF f.corpora[k].iaamd = "abs" THEN {[f EXCEPT !.corpora[k].iaamd = b] : b \in {"true", "false"}} ELSE {})
+           \cup UNION {(IF f.corpora[k].docs[d].tds = "" THEN {[f EXCEPT !.corpora[k].docs[d].tds = n] : n \in SNames} ELSE {})
+                       \cup (IF f.corpora[k].docs[d].iaamd = "abs"
+                             THEN {[f EXCEPT !.corpora[k].docs[d].iaamd = b] : b \in {"true", "false"}} ELSE {})
+                       : d \in 1..Len(f.corpora[k].docs)}
+           : k \in 1..Len(f.corpora)}
 CandAddIndex == IF Len(f.indices) < 2 THEN {[f EXCEPT !.indices = Append(@, n)] : n \in INames} ELSE {}
 CandAddStream == IF Len(f.streams) < 2 THEN {[f EXCEPT !.streams = Append(@, n)] : n \in SNames} ELSE {}
 CandSupplyParam ==
@@ -492,6 +556,7 @@ SetTaskField == \E F2 \in CandSetTaskField : Take(F2)
 SetParallelField == \E F2 \in CandSetParallelField : Take(F2)
 AddCorpus == \E F2 \in CandAddCorpus : Take(F2)
 AddDocs == \E F2 \in CandAddDocs : Take(F2)
+SetCorpusField == \E F2 \in CandSetCorpusField : Take(F2)
 AddIndex == \E F2 \in CandAddIndex : Take(F2)
 AddStream == \E F2 \in CandAddStream : Take(F2)
 SupplyParam == \E F2 \in CandSupplyParam : Take(F2)
@@ -503,7 +568,7 @@ Init == /\ f \in Seeds
         /\ violated = "none"
         /\ lim = Size(f) + MaxSize
 Next == \/ AddOperation \/ AddChallenge \/ SetDefault \/ AddTask \/ AddParallel \/ AddParallelTask
-        \/ SetTaskField \/ SetParallelField \/ AddCorpus \/ AddDocs \/ AddIndex \/ AddStream
+        \/ SetTaskField \/ SetParallelField \/ AddCorpus \/ AddDocs \/ SetCorpusField \/ AddIndex \/ AddStream
         \/ SupplyParam \/ UseReserved \/ SplitIntoPart \/ BreakSchema
 Spec == Init /\ [][Next]_vars
 =============================================================================
